@@ -36,7 +36,7 @@ struct C16Redeliver : Monitor {
 	// current step
 	int step_n = 0; bool step_tun = false; Dgram step_d; bool step_is_redeliv = false; uint64_t step_serial = 0;
 	struct Pos { int il, io, is, ifr, ol, oo, os, ofr, oq; bool operator!=(const Pos &o) const { return memcmp(this, &o, sizeof *this) != 0; } };
-	Pos before; bool have_before = false; int step_uid = -1;
+	Pos before; bool have_before = false; int step_uid = -1; int dc_before = 0;
 	std::vector<Bytes> step_answers;                // payloads of answers sent to the step's asker with its id
 	int step_other_answers = 0;
 	bool in_cache_at_recv = false; Bytes cached_payload;
@@ -168,6 +168,7 @@ struct C16Redeliver : Monitor {
 		Orig &o = it->second;
 		w->probes["c16.redelivered"]++;
 		before = pos_of(cur.uid); have_before = true;
+		{ UserView v; dc_before = peek_user(cur.uid, v) ? v.dnscache_last : 0; }
 		answered_at_recv = o.answered;
 		// is the repeat identical (name, type) to an entry of the model cache?
 		for (auto &c : cache) if (c.first == cur.name) { in_cache_at_recv = true; cached_payload = c.second; }
@@ -207,6 +208,16 @@ struct C16Redeliver : Monitor {
 					 before.il, before.io, before.is, before.ifr, after.il, after.io, after.is, after.ifr, before.ol, before.oo, before.os, before.ofr, before.oq, after.ol, after.oo, after.os, after.ofr, after.oq);
 				w->S.violate("C16", answered_at_recv ? "state.changed.answered" : "state.changed.pending", b);
 			}
+			if (!foreign && !answered_at_recv) {
+				// a copy of a query that is still waiting is remembered and answered together with the original by ONE answer
+				// operation (or not yet at all); it is never a query of its own
+				UserView v; int dc_after = peek_user(step_uid, v) ? v.dnscache_last : dc_before;
+				int gained = (dc_after - dc_before + 4) % 4;
+				if (gained >= 2) {
+					snprintf(b, sizeof b, "re-delivered copy of a still waiting %s query (uid %d) was answered as a query of its own: %d answer operations in the step that processed nothing but the copy", it != origs.end() && it->second.kind == 'p' ? "ping" : "data", step_uid, gained);
+					w->S.violate("C16", "pending.answered_as_new", b);
+				}
+			}
 			if (foreign) {
 				for (auto &a : step_answers) if (!(a.size() == 5 && !memcmp(a.data(), "BADIP", 5))) { w->S.violate("C16", "foreign.answered", "a repeat arriving from a foreign address was answered with something other than BADIP"); break; }
 				w->probes["c16.foreign_refused"]++;
@@ -243,7 +254,7 @@ struct C16Redeliver : Monitor {
 			if (!peek_user(u, v) || !v.active) continue;
 			int targets[2] = {0, 0};
 			if (v.qsrs_id && v.qsrs_id != last_qsrs[u]) targets[0] = v.qsrs_id;
-			if (v.q_id && v.q_id != last_q[u] && v.lazy) targets[1] = v.q_id;
+			if (v.q_id && v.q_id != last_q[u]) targets[1] = v.q_id;      // also in immediate mode: right after a lazy->immediate switch a query is still held
 			last_qsrs[u] = v.qsrs_id; last_q[u] = v.q_id;
 			for (int k = 0; k < 2; k++) {
 				if (!targets[k]) continue;
